@@ -110,7 +110,7 @@ pub fn chaos_case(ctx: &Ctx, case: u64, acc: &mut Acc, opts: &ChaosOpts) -> Resu
             (i, Op::Apply(ups, r.chance(1, 2)), false)
         } else if c < 99 {
             item_tag += 1;
-            let len = r.range(6, 24) as usize;
+            let len = if r.chance(1, 5) { r.range(1, 5) } else { r.range(6, 24) } as usize;
             (i, Op::AddBroadcast(make_item(item_tag, r.below(4) as u8, r.below(4) as u8, len, 0xAB)), false)
         } else if opts.set_config && r.chance(1, 2) {
             let mut c2 = peers[i].node.cfg.clone();
